@@ -733,3 +733,187 @@ func solverStage(r *ev.Run, full bool) {
 		}
 	}
 }
+
+func symmetric(a mat) bool {
+	for i := range a {
+		for j := range a[i] {
+			if a[i][j] != a[j][i] {
+				return false
+			}
+		}
+	}
+	return true
+}
+
+// ---- BiCGSTAB iteration histories ----
+//
+// The solver is a state machine (Iter after Iter). The alphabet contains the systems on which it reaches an
+// exact solution early - scaled identities, diagonal systems with an eigenvector as right-hand side, a zero
+// right-hand side, an exact initial guess - next to the graph systems. Oracle: once an iterate solves the system,
+// every later iterate (and the vector the driver returns for every iteration cap) still does; no NaN; a
+// tolerance-driven solve does not panic and meets its tolerance.
+func bicgStage(r *ev.Run, full bool) {
+	type system struct {
+		name string
+		a    mat
+	}
+	var systems []system
+	for n := 1; n <= 3; n++ {
+		for _, k := range []float64{0.25, 0.5, 1, 2, 4, 3} {
+			a := ident(n)
+			for i := range a {
+				a[i][i] = k
+			}
+			systems = append(systems, system{fmt.Sprintf("%g*I%d", k, n), a})
+		}
+	}
+	systems = append(systems,
+		system{"diag(1,2,4)", mat{{1, 0, 0}, {0, 2, 0}, {0, 0, 4}}},
+		system{"diag(1,2)", mat{{1, 0}, {0, 2}}},
+		system{"diag(3,3,5)", mat{{3, 0, 0}, {0, 3, 0}, {0, 0, 5}}},
+		system{"upper", mat{{2, 1, 0}, {0, 2, 1}, {0, 0, 2}}},
+		system{"nonsym", mat{{4, 1, 0}, {-1, 3, 1}, {0, -2, 5}}})
+	maxN := 3
+	if full {
+		maxN = 4
+	}
+	for n := 2; n <= maxN; n++ {
+		pairs := n * (n - 1) / 2
+		for mask := 0; mask < 1<<uint(pairs); mask++ {
+			a := ident(n)
+			e := 0
+			for i := 0; i < n; i++ {
+				for j := i + 1; j < n; j++ {
+					if mask&(1<<uint(e)) != 0 {
+						a[i][j], a[j][i] = -1, -1
+						a[i][i]++
+						a[j][j]++
+					}
+					e++
+				}
+			}
+			systems = append(systems, system{fmt.Sprintf("laplacian+I(n=%d,mask=%b)", n, mask), a})
+		}
+	}
+	apply := func(a mat) func(numerical.Vec) numerical.Vec {
+		return func(v numerical.Vec) numerical.Vec {
+			o := make(numerical.Vec, len(v))
+			for i := range a {
+				for j := range a[i] {
+					o[i] += a[i][j] * v[j]
+				}
+			}
+			return o
+		}
+	}
+	const steps = 12
+	ev.Parallel(len(systems), 0, func(si int) {
+		s := systems[si]
+		n := len(s.a)
+		op := apply(s.a)
+		// right-hand sides: basis vectors, ones, a mixed vector, zero
+		var rhs []numerical.Vec
+		for i := 0; i < n; i++ {
+			b := make(numerical.Vec, n)
+			b[i] = 3
+			rhs = append(rhs, b)
+		}
+		ones, mixed, zero := make(numerical.Vec, n), make(numerical.Vec, n), make(numerical.Vec, n)
+		for i := range ones {
+			ones[i] = 1
+			mixed[i] = float64(i*i) - 1.5
+		}
+		rhs = append(rhs, ones, mixed, zero)
+		for bi, b := range rhs {
+			// initial guesses: none, zero, a wrong one, and the exact solution of a system built from it
+			guesses := []numerical.Vec{nil, make(numerical.Vec, n), mixed.Scale(0.5)}
+			for gi := 0; gi <= len(guesses); gi++ {
+				b := b
+				var g numerical.Vec
+				if gi < len(guesses) {
+					g = guesses[gi]
+				} else {
+					g = mixed.Scale(2)
+					b = op(g) // g solves the system exactly
+				}
+				c := mcase{Kernel: "BiCGSTAB", Matrix: s.a, Args: b, Note: fmt.Sprintf("%s rhs#%d guess#%d", s.name, bi, gi)}
+				bad := func(kind, msg string) {
+					r.Violation("BiCGSTAB/"+kind, fmt.Sprintf("%s, b=%v, initial guess %v: %s", s.name, b, g, msg), c)
+				}
+				resid := func(x numerical.Vec) float64 {
+					d := op(x).Sub(b).Norm()
+					if math.IsNaN(d) {
+						return math.Inf(1)
+					}
+					return d
+				}
+				scale := 1 + b.Norm()
+				r.Eval(1)
+				var iterates []numerical.Vec
+				if p := ev.Try(func() {
+					var gg numerical.Vec
+					if g != nil {
+						gg = append(numerical.Vec{}, g...)
+					}
+					sv := numerical.NewBiCGSTAB(op, append(numerical.Vec{}, b...), gg)
+					for k := 0; k < steps; k++ {
+						iterates = append(iterates, append(numerical.Vec{}, sv.Iter()...))
+					}
+				}); p != "" {
+					bad("panic", "Iter panics: "+p)
+					continue
+				}
+				solvedAt := -1
+				for k, x := range iterates {
+					res := resid(x)
+					if solvedAt < 0 && res <= 1e-13*scale {
+						solvedAt = k
+					}
+					if solvedAt >= 0 && res > 1e-8*scale {
+						bad("lost-solution", fmt.Sprintf("iterate %d solves the system (residual %g) but iterate %d is %v with residual %g", solvedAt+1, resid(iterates[solvedAt]), k+1, x, res))
+						break
+					}
+				}
+				if solvedAt >= 0 {
+					r.NontrivialAdd(1)
+				}
+				// the driver with an iteration cap only returns the iterate of that number
+				for m := 1; m <= steps; m++ {
+					var sol numerical.Vec
+					if p := ev.Try(func() {
+						sol = (&numerical.BiCGSTABSolver{MaxIters: m}).SolveLinearSystem(op, append(numerical.Vec{}, b...), g)
+					}); p != "" {
+						bad("panic", fmt.Sprintf("SolveLinearSystem(MaxIters=%d) panics: %s", m, p))
+						break
+					}
+					if solvedAt >= 0 && m > solvedAt && resid(sol) > 1e-8*scale {
+						bad("cap-only", fmt.Sprintf("iterate %d already solves the system, SolveLinearSystem(MaxIters=%d) returns %v with residual %g", solvedAt+1, m, sol, resid(sol)))
+						break
+					}
+				}
+				// the driver with a tolerance
+				for _, tolMode := range []int{0, 1} {
+					sv := &numerical.BiCGSTABSolver{MaxIters: 200}
+					if tolMode == 0 {
+						sv.MSETolerance = 1e-20
+					} else {
+						sv.MAETolerance = 1e-10
+					}
+					var sol numerical.Vec
+					if p := ev.Try(func() { sol = sv.SolveLinearSystem(op, append(numerical.Vec{}, b...), g) }); p != "" {
+						bad("panic", fmt.Sprintf("SolveLinearSystem(%+v) panics: %s", *sv, p))
+						continue
+					}
+					if res := resid(sol); res > 1e-8*scale && !symmetric(s.a) && !math.IsInf(res, 1) {
+						// breakdown of the unrestarted method (shadow residual orthogonal to the residual) on a
+						// non-symmetric system: a limitation of BiCGSTAB itself; a finite estimate is all that is asked
+						r.Skipped(1)
+					} else if res > 1e-8*scale {
+						bad("tolerance", fmt.Sprintf("SolveLinearSystem(%+v) returns %v with residual %g", *sv, sol, res))
+					}
+				}
+			}
+		}
+	})
+	r.Set("bicgstab_systems", len(systems))
+}
